@@ -48,6 +48,33 @@ pub fn det_program(gen: &str, rng: &mut Rng) -> Program {
             cfg.nq = 2;
             SearchGen::new(rng, cfg).program()
         }
+        _ if rng.chance(1, 5) => {
+            // variables that share a NAME (user-written `_`): a list of anonymous variables is taken
+            // apart into named ones, a non-linear disequality chains them, and a later unification
+            // re-runs the stored constraint. Whatever order the constraint's pairs are visited in
+            // must not depend on the hash seed even when the names tie.
+            let k = 3 + rng.below(2);
+            let xs: Vec<V> = (10..10 + k as V).collect();
+            let pick = |rng: &mut Rng| T::Var(xs[rng.below(k)]);
+            let mut body = vec![G::Eq(v(0), T::list((0..k).map(|_| T::Any).collect())), G::Eq(T::list(xs.iter().map(|x| T::Var(*x)).collect()), v(0))];
+            if rng.chance(1, 2) {
+                body.swap(0, 1);
+            }
+            let n = 2 + rng.below(2);
+            let a: Vec<T> = (0..n).map(|_| pick(rng)).collect();
+            let b: Vec<T> = (0..n).map(|i| if i > 0 && rng.chance(2, 3) { a[i - 1].clone() } else { pick(rng) }).collect();
+            let d = G::Diseq(T::list(a), T::list(b));
+            let pos = rng.below(body.len() + 1);
+            body.insert(pos, d);
+            for _ in 0..1 + rng.below(2) {
+                body.push(match rng.below(3) {
+                    0 => G::Eq(v(1), T::Int(rng.range(1, 3))),
+                    1 => G::Eq(pick(rng), pick(rng)),
+                    _ => G::Eq(v(1), pick(rng)),
+                });
+            }
+            Program::new(vec![0, 1], vec![G::Fresh(xs.clone(), body)])
+        }
         _ => {
             let mut c = TreeCfg::default();
             c.nq = 2;
@@ -124,7 +151,7 @@ impl Check for C09 {
         ]
     }
     fn rule(&self) -> &'static str {
-        "Determinism: 'det-fd' (FD programs with >= 3 interacting constraints, where wake-up and labeling order could follow hash order), 'det-tree' (==/!= programs with hostile subsuming disequalities), 'det-search' (disjunction/recursion programs). Each program: the SAME Query value is run twice in one thread, the AST is rebuilt and run again, and it is run on 5 (quick) / 8 (thorough) fresh threads (fresh SipHash keys); 'xproc' additionally runs the program in 2 fresh PROCESSES. All answer sequences must be identical up to renaming of reified variables (first-occurrence order) and the order of constraints / pairs (L1). Differences are classified: equal after bringing every disequality to solved form (L2) = representation-only; equal as a multiset of ground-instance sets (L3) = order-only; otherwise semantic. Fused: after every exhausted stream next() is called 3 more times and must return None. Laziness: programs with infinitely many answers (loop, always, append with fresh arguments, never()/diverging dfs branch next to a producer, directly and mutually recursive closures without a fresh block run breadth-first and inside dfs { }) must deliver their first 12 answers within 2*10^6 engine steps (hook H1). Distinct = distinct program text; non-trivial = at least one answer."
+        "Determinism: 'det-fd' (FD programs with >= 3 interacting constraints, where wake-up and labeling order could follow hash order), 'det-tree' (==/!= programs with hostile subsuming disequalities; one in five takes a list of user-written `_` variables apart and chains them in a non-linear disequality, so the keys of the stored pairs all have the same NAME), 'det-search' (disjunction/recursion programs). Each program: the SAME Query value is run twice in one thread, the AST is rebuilt and run again, and it is run on 5 (quick) / 8 (thorough) fresh threads (fresh SipHash keys); 'xproc' additionally runs the program in 2 fresh PROCESSES. All answer sequences must be identical up to renaming of reified variables (first-occurrence order) and the order of constraints / pairs (L1). Differences are classified: equal after bringing every disequality to solved form (L2) = representation-only; equal as a multiset of ground-instance sets (L3) = order-only; otherwise semantic. Fused: after every exhausted stream next() is called 3 more times and must return None. Laziness: programs with infinitely many answers (loop, always, append with fresh arguments, never()/diverging dfs branch next to a producer, directly and mutually recursive closures without a fresh block run breadth-first and inside dfs { }) must deliver their first 12 answers within 2*10^6 engine steps (hook H1). Distinct = distinct program text; non-trivial = at least one answer."
     }
     fn assumptions(&self) -> Vec<String> {
         vec!["fresh threads and fresh processes stand for 'a different hash seed' (std RandomState keys are per thread)".into(), "laziness is decided as bounded progress in engine steps, not wall-clock".into()]
